@@ -104,6 +104,11 @@ func cmdCheck(args []string) {
 	if *tier != "thorough" {
 		*tier = "quick"
 	}
+	if s := os.Getenv("VERIF_WORKERS"); s != "" { // development aid: leave cores to other work
+		if n, err := strconv.Atoi(s); err == nil && n > 0 {
+			*workers = n
+		}
+	}
 	seed := 0
 	if s := os.Getenv("VERIF_SEED"); s != "" {
 		seed, _ = strconv.Atoi(s)
